@@ -72,6 +72,9 @@ def register(db):
 
     register_acceptance(db)
     register_acceptance_2(db)
+    register_acceptance_3(db)
+    register_acceptance_4(db)
+    register_acceptance_5(db)
     FROM = [
         ("XmlDate", ["valid_date(result.year, result.month, result.day)"]),
         ("XmlTime", ["valid_time(result.hour, result.minute, result.second, result.fractional_second)"]),
@@ -144,10 +147,10 @@ def register_acceptance(db):
         f"{P}.parse_digits", variant="accepts-two-digits",
         params={"self": parser, "digits": 2},
         ghost={"head": "str", "tok": "str", "rest": "str", "k": "int"},
-        requires=HERE + ["0 <= k and k <= 99", "tok == pad(k, 2)"],
+        requires=["0 <= k", "k <= 99"] + HERE + ["tok == pad(k, 2)"],
         hints=["substr_at(self.value, head, tok, rest)", "int_of_digits(tok)"],
         ensures=[("component-value", "result == k"), ("consumes-the-token", "self.vidx == len(head) + 2")] + KEEP,
-        raises={}, properties=PR,
+        raises={}, modifies=["self.vidx"], properties=PR,
     ))
     db.add(Contract(
         f"{P}.skip", variant="accepts-the-separator",
@@ -156,7 +159,7 @@ def register_acceptance(db):
         requires=["self.value == head + char + rest", "self.vidx == len(head)", "len(char) == 1"] + WF,
         hints=["substr_at(self.value, head, char, rest)"],
         ensures=[("consumes-the-separator", "self.vidx == len(head) + 1")] + KEEP,
-        raises={}, properties=PR,
+        raises={}, modifies=["self.vidx"], properties=PR,
     ))
 
 
@@ -168,7 +171,7 @@ def register_acceptance_2(db):
         f"{P}.parse_offset", variant="accepts-no-timezone",
         params={"self": parser}, requires=WF + ["self.vidx == self.vlen"],
         ensures=[("absent", "result is None"), ("cursor-stays", "self.vidx == old(self.vidx)")] + KEEP,
-        raises={}, properties=PR,
+        raises={}, modifies=["self.vidx"], properties=PR,
     ))
     db.add(Contract(
         f"{P}.parse_offset", variant="accepts-Z",
@@ -176,14 +179,13 @@ def register_acceptance_2(db):
         requires=HERE + ["self.value == head + 'Z' + rest"],
         hints=["substr_at(self.value, head, 'Z', rest)"],
         ensures=[("utc", "result == 0"), ("consumes-the-token", "self.vidx == len(head) + 1")] + KEEP,
-        raises={}, properties=PR,
+        raises={}, modifies=["self.vidx"], properties=PR,
     ))
     for name, sign, factor in (("plus", "+", 1), ("minus", "-", -1)):
         db.add(Contract(
             f"{P}.parse_offset", variant=f"accepts-{name}-hh-mm",
             params={"self": parser}, ghost={"head": "str", "rest": "str", "hh": "int", "mm": "int"},
-            requires=HERE + [f"self.value == head + '{sign}' + pad(hh, 2) + ':' + pad(mm, 2) + rest",
-                             "0 <= hh and hh <= 99 and 0 <= mm and mm <= 99"],
+            requires=["0 <= hh", "hh <= 99", "0 <= mm", "mm <= 99"] + HERE + [f"self.value == head + '{sign}' + pad(hh, 2) + ':' + pad(mm, 2) + rest"],
             hints=[f"substr_at(self.value, head, '{sign}', pad(hh, 2) + ':' + pad(mm, 2) + rest)",
                    f"substr_at(self.value, head + '{sign}', pad(hh, 2), ':' + pad(mm, 2) + rest)",
                    f"substr_at(self.value, head + '{sign}' + pad(hh, 2), ':', pad(mm, 2) + rest)",
@@ -191,5 +193,80 @@ def register_acceptance_2(db):
                    "int_of_digits(pad(hh, 2))", "int_of_digits(pad(mm, 2))"],
             ensures=[("offset-in-minutes", f"result == {factor} * (60 * hh + mm)"),
                      ("consumes-the-token", "self.vidx == len(head) + 6")] + KEEP,
-            raises={}, properties=PR,
+            raises={}, modifies=["self.vidx"], properties=PR,
+        ))
+
+
+def register_acceptance_3(db):
+    """Years (four digits, optional sign) and fractional seconds (1..9 digits)."""
+    PR = ["C06"]
+    HERE = ["self.vidx == len(head)"] + WF
+    # what follows the digits is the end or an ASCII character that is not a digit (the XSD grammar continues
+    # with '-', ':', 'T', 'Z', '+', '.'); python's isdigit() also accepts non-ASCII digits
+    NOT_DIGIT = "(len(rest) == 0 or rest[0:1] < '0' or ('9' < rest[0:1] and rest[0:1] <= '\x7f'))"
+    db.add(Contract(
+        f"{P}.parse_minimum_digits", variant="accepts-four-digits",
+        params={"self": parser, "min_digits": 4},
+        ghost={"head": "str", "rest": "str", "k": "int"},
+        requires=["0 <= k", "k <= 9999"] + HERE + ["self.value == head + pad(k, 4) + rest", NOT_DIGIT],
+        hints=["substr_at(self.value, head, pad(k, 4), rest)", "int_of_digits(pad(k, 4))", "substr_at(self.value, head + pad(k, 4), rest[0:1], rest[1:])",
+               "rest == rest[0:1] + rest[1:]"],
+        ensures=[("component-value", "result == k"), ("consumes-exactly-the-digits", "self.vidx == len(head) + 4")] + KEEP,
+        raises={}, returns="int", modifies=["self.vidx"],
+        loops=[Loop(invariants=["self.vidx == start + 4", "self.vlen == len(self.value)", "start == len(head)"],
+                    decreases="self.vlen - self.vidx", header="self.has_more() and self.peek().isdigit()")],
+        properties=PR,
+    ))
+
+
+def register_acceptance_4(db):
+    PR = ["C06"]
+    HERE = ["self.vidx == len(head)"] + WF
+    NOT_DIGIT = "(len(rest) == 0 or rest[0:1] < '0' or ('9' < rest[0:1] and rest[0:1] <= '\\x7f'))"
+    PMD = f"{P}.parse_minimum_digits"
+    db.add(Contract(
+        f"{P}.parse_year", variant="accepts-four-digit-year",
+        params={"self": parser}, ghost={"head": "str", "rest": "str", "k": "int"},
+        requires=["0 <= k", "k <= 9999"] + HERE + ["self.value == head + pad(k, 4) + rest", NOT_DIGIT],
+        hints=["substr_at(self.value, head, pad(k, 4), rest)", "head_of(pad(k, 4), rest)", "digits_only(pad(k, 4), '-')",
+               "leading_zeros(pad(k, 4), 4)", "char_at(self.value, head, pad(k, 4)[0:1], pad(k, 4)[1:] + rest)",
+               "pad(k, 4) == pad(k, 4)[0:1] + pad(k, 4)[1:]"],
+        call_variants={PMD: [("accepts-four-digits", {"head": "head", "rest": "rest", "k": "k"})]},
+        ensures=[("component-value", "result == k"), ("consumes-exactly-the-year", "self.vidx == len(head) + 4")] + KEEP,
+        raises={}, returns="int", modifies=["self.vidx"], properties=PR,
+    ))
+    db.add(Contract(
+        f"{P}.parse_year", variant="accepts-negative-four-digit-year",
+        params={"self": parser}, ghost={"head": "str", "rest": "str", "k": "int"},
+        requires=["0 <= k", "k <= 9999"] + HERE + ["self.value == head + '-' + pad(k, 4) + rest", NOT_DIGIT],
+        hints=["substr_at(self.value, head, '-', pad(k, 4) + rest)", "substr_at(self.value, head + '-', pad(k, 4), rest)",
+               "leading_zeros(pad(k, 4), 4)"],
+        call_variants={PMD: [("accepts-four-digits", {"head": "head + '-'", "rest": "rest", "k": "k"})]},
+        ensures=[("component-value", "result == -k"), ("consumes-exactly-the-year", "self.vidx == len(head) + 5")] + KEEP,
+        raises={}, returns="int", modifies=["self.vidx"], properties=PR,
+    ))
+
+
+def register_acceptance_5(db):
+    """Fractional seconds: '.' followed by 1..9 digits (then the end or a non-digit) is accepted with the value
+    scaled to nanoseconds; no '.' means 0.  The digit loop is unrolled: max_digits is the literal 9 and is
+    decremented on every iteration, so every path leaves through the concrete guard (complete)."""
+    PR = ["C06"]
+    HERE = ["self.vidx == len(head)"] + WF
+    NOT_DIGIT = "(len(rest) == 0 or rest[0:1] < '0' or ('9' < rest[0:1] and rest[0:1] <= '\\x7f'))"
+    PFD = f"{P}.parse_fixed_digits"
+    for n in range(1, 10):
+        tok = f"pad(k, {n})"
+        chars = [f"chars_at(self.value, head, {tok}, {n}, rest)"]
+        db.add(Contract(
+            PFD, variant=f"accepts-{n}-digits",
+            params={"self": parser, "max_digits": 9}, ghost={"head": "str", "rest": "str", "k": "int"},
+            requires=["0 <= k", f"k < {10 ** n}"] + HERE + [f"self.value == head + {tok} + rest"] + ([NOT_DIGIT] if n < 9 else []),
+            hints=[f"substr_at(self.value, head, {tok}, rest)", f"digit_chars({tok}, {n})", f"nat_shift({tok}, {9 - n})",
+                   f"int_of_digits({tok} + '{'0' * (9 - n)}')",
+                   f"substr_at(self.value, head + {tok}, rest[0:1], rest[1:])", "rest == rest[0:1] + rest[1:]"] + chars,
+            ensures=[("nanoseconds", f"result == k * {10 ** (9 - n)}"), ("consumes-exactly-the-digits", f"self.vidx == len(head) + {n}")] + KEEP,
+            raises={}, returns="int", modifies=["self.vidx"],
+            loops=[Loop(unroll=True, header="max_digits and self.has_more() and self.peek().isdigit()")],
+            properties=PR,
         ))
